@@ -95,6 +95,31 @@ func TestC45Helper(t *testing.T) {
 	if err != nil {
 		t.Fatal(err)
 	}
+	if pp := os.Getenv("C45_HELPER_PREV_PAYLOAD"); pp != "" {
+		// the previous successful update happens in this process, right before the traced one and early
+		// in a wall-clock second, so that both updates (almost always) target the same autoconf-<unix>.json
+		prev, err := os.ReadFile(pp)
+		if err != nil {
+			t.Fatal(err)
+		}
+		if ns := time.Now().Nanosecond(); ns > 300_000_000 {
+			time.Sleep(time.Duration(1_000_000_000-ns) + 5*time.Millisecond)
+		}
+		pc, err := newClient(dir, prev, os.Getenv("C45_HELPER_PREV_ETAG"))
+		if err != nil {
+			t.Fatal(err)
+		}
+		if _, err := pc.GetLatest(context.Background()); err != nil {
+			t.Fatal(err)
+		}
+		subs, _ := os.ReadDir(dir)
+		if len(subs) != 1 {
+			t.Fatalf("expected one cache subdirectory, got %d", len(subs))
+		}
+		if err := os.WriteFile(filepath.Join(dir, subs[0].Name(), markerName), []byte("x"), 0o600); err != nil {
+			t.Fatal(err)
+		}
+	}
 	c, err := newClient(dir, body, os.Getenv("C45_HELPER_ETAG"))
 	if err != nil {
 		t.Fatal(err)
@@ -103,6 +128,9 @@ func TestC45Helper(t *testing.T) {
 		t.Fatal(err)
 	}
 }
+
+// markerName separates, in the traced log, the previous update from the update under test.
+const markerName = ".c45-marker"
 
 // ---- strace log -> operation log ----
 type op struct {
@@ -321,7 +349,13 @@ func TestC45(t *testing.T) {
 			}
 			dir := t.TempDir()
 			var sub string
-			for i := 1; i <= k; i++ {
+			// same-second variant: update k is made by the traced process itself, immediately before update k+1
+			sameSecond := k >= 1 && (round+k)%2 == 1
+			inProc := k
+			if sameSecond {
+				inProc = k - 1
+			}
+			for i := 1; i <= inProc; i++ {
 				c, err := newClient(dir, payloads[i], fmt.Sprintf("\"v%d\"", i))
 				if err != nil {
 					t.Fatal(err)
@@ -342,7 +376,7 @@ func TestC45(t *testing.T) {
 					t.Fatal(err)
 				}
 			}
-			if k == 0 {
+			if inProc == 0 {
 				// learn the subdirectory name the client uses, without writing anything
 				c, _ := newClient(t.TempDir(), payloads[1], "\"probe\"")
 				_, _ = c.GetLatest(context.Background())
@@ -369,6 +403,11 @@ func TestC45(t *testing.T) {
 				os.Args[0], "-test.run", "^TestC45Helper$", "-test.count=1")
 			cmd.Env = append(os.Environ(), "C45_HELPER_DIR="+dir, "C45_HELPER_PAYLOAD="+pf,
 				fmt.Sprintf("C45_HELPER_ETAG=\"v%d\"", vnew), fmt.Sprintf("C45_HELPER_CACHESIZE=%d", cacheSize))
+			if sameSecond {
+				ppf := filepath.Join(t.TempDir(), "prev.json")
+				os.WriteFile(ppf, payloads[k], 0o600)
+				cmd.Env = append(cmd.Env, "C45_HELPER_PREV_PAYLOAD="+ppf, fmt.Sprintf("C45_HELPER_PREV_ETAG=\"v%d\"", k))
+			}
 			if out, err := cmd.CombinedOutput(); err != nil {
 				t.Fatalf("traced update failed: %v\n%s", err, out)
 			}
@@ -398,6 +437,37 @@ func TestC45(t *testing.T) {
 				}
 			}
 
+			sameName := false
+			if sameSecond {
+				// split the log at the marker: what precedes it is update k and becomes part of the base state
+				mi, mj := -1, -1
+				for i, o := range ops {
+					if o.name == markerName {
+						if mi < 0 {
+							mi = i
+						}
+						mj = i
+					}
+				}
+				if mi < 0 {
+					t.Fatalf("the marker between the two updates was not traced")
+				}
+				for _, o := range ops[:mi] {
+					base.apply(o, -1)
+				}
+				ops = ops[mj+1:]
+				newestBefore := ""
+				for n := range base {
+					if strings.HasSuffix(n, ".json") && strings.Contains(n, "autoconf-") && n > newestBefore {
+						newestBefore = n
+					}
+				}
+				for _, o := range ops {
+					if o.kind == "rename" && o.dst == newestBefore {
+						sameName = true
+					}
+				}
+			}
 			before := classify(t, base, sub, payloads)
 			// Coq rendering of lens, dir0, ops
 			var lens []string
@@ -477,13 +547,14 @@ func TestC45(t *testing.T) {
 				}
 				term := fmt.Sprintf("{| c_lens := %s; c_dir0 := %s; c_before := %s; c_vnew := %d; c_ops := %s; c_obs := %s |}",
 					vh.List(lens), vh.List(d0), before, vnew, vh.List(opsCoq), vh.List(oc))
-				rp := map[string]any{"cache_size(0=default)": cacheSize, "earlier_updates": k, "payload_lengths": lens, "dir_before": names, "read_before": before,
+				rp := map[string]any{"previous_update_in_same_second": sameName, "cache_size(0=default)": cacheSize, "earlier_updates": k, "payload_lengths": lens, "dir_before": names, "read_before": before,
 					"ops": opsDesc, "observations": fmt.Sprintf("crash points %d..%d of %d: (complete ops, byte cut, GetCached result) = %v",
 						g, hi-1, len(obsl), oc)}
 				cs.Add(term, rp)
 				st.Case(fmt.Sprintf("cs=%d|k=%d|%v|%d", cacheSize, k, lens, g), k >= 1 && payloadCut)
 				st.Count(fmt.Sprintf("cache-size=%d", cacheSize))
 				st.Count(fmt.Sprintf("earlier-updates=%d", k))
+				st.Count(fmt.Sprintf("new-version-replaces-file-of-same-name=%v", sameName))
 				if g == 0 {
 					st.Sample(map[string]any{"earlier_updates": k, "ops": opsDesc, "crash_states": len(obsl), "read_before": before}, 4)
 				}
